@@ -40,7 +40,8 @@ var c36tables = []string{"t_plain", "t1", "orders_2024", "t_other"}
 var c36cols = []string{"a", "b", "name", "level2", "c3"}
 var c36ops = []string{"=", ">", "<", ">=", "<=", "<>"}
 var c36nums = []string{"0", "1", "5", "42", "1000000", "3.5", "0.001"}
-var c36strs = []string{"'x'", "'hello world'", "''", `'it\'s'`, "'it''s'", "'select * from t'", "'a;b'", "'-- no comment'", "'/* no */'", `"dq"`, "'5'"}
+var c36strs = []string{"'x'", "'hello world'", "''", `'it\'s'`, "'it''s'", "'select * from t'", "'a;b'", "'-- no comment'", "'/* no */'", `"dq"`, "'5'",
+	`'C:\\tmp\\'`, "'a#b'", `'\\'`, `"a\\"`, "'x /* y'"}
 
 func c36lit(tp *simkit.Tape) c36tok {
 	if tp.Chance(1, 2) {
@@ -176,6 +177,10 @@ func (s c36stmt) variant(tp *simkit.Tape) (string, []string) {
 			sep[i] = " " + c + " "
 			if i == len(v.toks) {
 				sep[i] = " " + strings.TrimSuffix(c, "\n")
+			} else if tp.Chance(1, 3) {
+				// glued to its neighbours: a comment separates tokens by itself
+				sep[i] = c
+				mark("comments-glued")
 			}
 			mark("comments")
 		}
@@ -238,6 +243,13 @@ func runC36(r *simkit.Run) {
 		}
 		ns.BlackSQL = append(ns.BlackSQL, txt)
 	}
+	// some runs allow multi-statement texts: a blacklisted statement is a blacklisted statement also as one piece of such a text
+	multi := tp.Chance(1, 3)
+	ns.SupportMultiQuery = multi
+	copts := mycli.Options{User: "ns1_rw", Password: "pw_rw", DB: "db1"}
+	if multi {
+		copts.ExtraCaps = myproto.CMultiStatements
+	}
 	withSharded := tp.Chance(1, 3) // another, sharded namespace is loaded in the same process at some point
 	w, err := NewWorld(r, map[string]*models.Namespace{"ns1": ns}, WorldOpts{})
 	if err != nil {
@@ -246,7 +258,7 @@ func runC36(r *simkit.Run) {
 	}
 	w.Cl.Logf = r.Logf
 	r.SetSiteDensity(0, 0)
-	r.Logf("blacklist %q shardedNamespaceLater=%v", ns.BlackSQL, withSharded)
+	r.Logf("blacklist %q shardedNamespaceLater=%v multiStatements=%v", ns.BlackSQL, withSharded, multi)
 	nOps := tp.Range(4, 12)
 	shardAt, reloadAt := -1, -1
 	if withSharded {
@@ -259,7 +271,7 @@ func runC36(r *simkit.Run) {
 	rejected, passed := 0, 0
 	r.Go("client", func() {
 		defer func() { finished = true }()
-		c, err := w.Connect("", mycli.Options{User: "ns1_rw", Password: "pw_rw", DB: "db1"})
+		c, err := w.Connect("", copts)
 		if err != nil {
 			r.Failf("harness", "cannot connect: %v", err)
 			return
@@ -291,7 +303,7 @@ func runC36(r *simkit.Run) {
 				r.Fault("blacklist-namespace-reloaded")
 				// the session was bound to the old generation: reconnect
 				c.Quit()
-				c, err = w.Connect("", mycli.Options{User: "ns1_rw", Password: "pw_rw", DB: "db1"})
+				c, err = w.Connect("", copts)
 				if err != nil {
 					r.Failf("harness", "cannot reconnect: %v", err)
 					return
@@ -329,6 +341,15 @@ func runC36(r *simkit.Run) {
 						what += "=blacklisted"
 					}
 				}
+			}
+			if multi && tp.Chance(1, 3) {
+				// as the first or the second piece of a multi-statement text (the other piece is harmless)
+				if tp.Chance(1, 2) {
+					sql, what = strings.TrimRight(strings.TrimSpace(sql), ";")+"; select 1", what+"+first-piece"
+				} else {
+					sql, what = "select 1; "+sql, what+"+second-piece"
+				}
+				r.Probe("sent-as-a-piece-of-a-multi-statement-text")
 			}
 			from := len(w.Cl.Log)
 			_, qerr := c.Query(sql)
